@@ -333,6 +333,12 @@ func makeXsdBuiltinType(from xsd.Builtin, knownTypes *TypeList) Type {
  * Sysl doesn't support extend syntax, so merges its all ansestor's elements to itself.
  */
 func getAllElements(current xsd.Type) []xsd.Element {
+	return getAllElementsBelow(current, map[*xsd.ComplexType]bool{})
+}
+
+// getAllElementsBelow follows the chain of base types; onPath holds the types it has passed, so that a type that is
+// (directly or through others) derived from itself ends the chain instead of being followed for ever.
+func getAllElementsBelow(current xsd.Type, onPath map[*xsd.ComplexType]bool) []xsd.Element {
 	if current == nil {
 		return nil
 	}
@@ -342,7 +348,12 @@ func getAllElements(current xsd.Type) []xsd.Element {
 		if parent == nil || parent == xsd.AnyType {
 			return concreteCurrent.Elements
 		} else if concreteParent, pok := parent.(*xsd.ComplexType); pok {
-			inherited := getAllElements(concreteParent)
+			onPath[concreteCurrent] = true
+			if onPath[concreteParent] {
+				logrus.Warnf("xsd: complex type %s is derived from itself; its base is ignored", concreteCurrent.Name.Local)
+				return concreteCurrent.Elements
+			}
+			inherited := getAllElementsBelow(concreteParent, onPath)
 			// copy: appending to the parent's slice would write into its spare capacity, which every
 			// other type derived from the same parent shares
 			all := make([]xsd.Element, 0, len(inherited)+len(concreteCurrent.Elements))
